@@ -80,6 +80,45 @@ CHECKS = {
              'query position at once; the real ecdf functions (sort network, bisection, indexing) against the counting definition.',
         note='Trusted: z3 (LRA/LIA); numpy sort/searchsorted model.',
         ref='DESIGN.md 4/C09'),
+    'C11': dict(
+        text='Bounded symbolic model checking: the real GriddedForecast.load_ascii / from_custom / quadtree loaders run on file '
+             'layouts (lattice x magnitude bins x flags x row order x swap_latlon) delivered by the loadtxt stub, the rate column '
+             'being one opaque real symbol per file row; get_rates / target_event_rates on a symbolic (lon, lat, magnitude) point '
+             'must return the symbol of the row whose half-open box contains it; scale sequences and the sum identities are '
+             'decided over symbolic factors.',
+        note='Trusted: z3; numpy model; the loadtxt/genfromtxt stub (the float matrix the file denotes; text parsing outside).',
+        ref='DESIGN.md 4/C11'),
+    'C12': dict(
+        text='Bounded symbolic model checking of the real load_ascii_catalogs generator (nested helpers included) over files of '
+             'L <= 4 (5) rows with symbolic catalog id and symbolic placeholder flag per row, with and without header: decoded '
+             'catalogs equal the encoded ones (ids 0..n-1 in order, each with exactly its rows in file order, six fields); '
+             'decreasing ids are rejected.',
+        note='Trusted: z3; csv.reader stub (rows of fields); time strings as placeholders with real syntax and symbolic instant.',
+        ref='DESIGN.md 4/C12'),
+    'C13': dict(
+        text='Bounded symbolic model checking over configurations (in-memory / loader, store, apply_filters, filter_spatial) and '
+             'operation histories of length <= 3 (4) on the real CatalogForecast with counting catalog stubs: every pass yields the '
+             'same catalogs with filters applied once, n_cat / get_event_counts equal one pass, get_expected_rates returns the '
+             'per-cell mean identically on every request.',
+        note='Trusted: z3; catalog stubs whose filter operations are idempotent (C04).',
+        ref='DESIGN.md 4/C13'),
+    'C17': dict(
+        text='Bounded symbolic model checking in linear real arithmetic: single-resolution quadtree grids of zoom 1..4 (6) tile '
+             'the band exactly once for every point and get_index_of returns the containing cell; refinement from 2 (3) symbolic '
+             'events obeys the threshold / depth rule and yields prefix-free complete leaves; cell areas by one inductive step over '
+             'arbitrary tile bounds (uninterpreted cos).',
+        note='Trusted: z3; real mercantile for concrete tile bounds; lazy numpy.where model.',
+        ref='DESIGN.md 4/C17'),
+    'C18': dict(
+        text='Bounded symbolic model checking: (results) the real to_dict / write_json / load_evaluation_result / from_dict run on '
+             'result objects of each of the 7 classes whose fields are symbolic values with a Python-type tag (extended reals with '
+             'free NaN / inf flags, integers, None, tuples / lists / ndarrays, strings); z3 decides field-wise equality after the '
+             'round trip for every type signature produced by the real evaluation functions plus all single-field variations; '
+             '(regions) original and from_dict(to_dict()) regions are compared bit-exactly (QF_BVFP) for every finite (lon, lat).',
+        note='Trusted: z3; the JSON type-rule stub (conformance-tested against the real json module in the check); the type '
+             'signatures are discovered by running the real evaluation functions on a small input family. Byte-level JSON is '
+             'outside; the W-test result (test_distribution is the string "normal") is outside the numeric claim.',
+        ref='DESIGN.md 4/C18'),
     'C16': dict(
         text='Bounded symbolic model checking in extended reals with uninterpreted exp/log and the Poisson-cdf contract: binary '
              'log-likelihood and Brier score against their definitions for symbolic rates (zeros allowed) and counts, activity-only '
